@@ -189,7 +189,7 @@ PROPS["C11"] = {
 }
 PROPS["C17"] = {
     "harness": "c17",
-    "models": ["Json/StreamModel.v (t_next/tokenize)", "Generated/JsonParseGen.v"],
+    "models": ["Json/StreamModel.v (t_next/tokenize)", "Json/StateSpec.v (g_tokens/spec_tokens)", "Generated/JsonParseGen.v"],
     "rule": "every string of <= 3 symbols over the JSON class alphabet; grammar-directed documents (depth <= 5) emphasising empty containers inside non-empty ones and keys after nested containers, with single-byte corruptions; Reset after a partial run on another (possibly invalid) document; "
             "observable: Value of every token, Depth/Index/IsKey of scalars and opening delimiters, ERR marker, with termination, the sub-slice/Remaining contract and error stickiness checked inline; oracle for valid documents: tokens derived from encoding/json's Decoder.Token stream on the compacted document",
     "nontrivial": nontrivial_default,
@@ -197,6 +197,11 @@ PROPS["C17"] = {
     "assumptions": [],
 }
 
+PROPS["C17"]["claim"] = {
+    "text": "Theorems (Properties/C17.v) on the tokenizer model: for EVERY valid document the tokenizer yields exactly the grammar-derived delimiters and scalars in order with Depth/Index/IsKey of every scalar and opening delimiter and no error; the token values concatenate to the compacted document; "
+            "for EVERY byte string it terminates within len+1 calls of Next with every Value the sub-slice ending Remaining bytes before the end; Next after an error returns false and changes nothing. Reset/pooled-stack reuse and Kind/String/Int/Uint/Float/Bool are decided by correspondence (reused vs fresh tokenizer, accessor values vs encoding/json's token stream).",
+    "note": "Trusted: Coq kernel; the hand-written tokenizer model tied by correspondence on every run (model = implementation on all strings of <= 3 class symbols and ~10^4 structured documents); the regenerated scanner; extraction+driver; harness. The pooled stack and Reset are not in the theorem (the model's Reset is construction of a fresh state; reuse is checked differentially).",
+}
 PROPS["C04"]["claim"] = {
     "text": "Theorems (Properties/C04.v) on the thrift model: for both protocols, every supported struct type (ids in any order and spacing, gaps > 15, ranges > 64, required/optional/enum, bools in nested and pointer positions, lists, sets, maps, nested and pointer-to structs) and every value whose required fields are set, "
             "Unmarshal(Marshal(v)) = v up to nil-vs-empty (and -0.0 = 0.0), and the two protocols decode each other's logical content to the same value. Reset of Encoder/Decoder is covered by correspondence (a reused encoder/decoder vs a fresh one).",
@@ -212,3 +217,17 @@ PROPS["C13"]["claim"] = {
             "(binary type codes, 3-byte binary stop field, big-endian compact doubles), and is refuted without them by concrete witnesses. Any other byte-level deviation breaks the theorem or the correspondence.",
     "note": "Trusted as C04, plus the specification transcription (Thrift/Spec.v spec_enc and harness specEnc), written from memory of the specification documents: no Apache Thrift implementation is available offline; this is the weakest oracle of the development. Reader acceptance of alternative conformant encodings (long forms) is covered by the decoder theorems of C04/C08 only for the package's own output.",
 }
+
+# per-property fragments (lib/props_cXX.py defining ENTRY, and optionally CLAIM): one file per property so that
+# several people can work in parallel without touching this file
+import os, glob as _glob, importlib.util as _ilu
+for _f in sorted(_glob.glob(os.path.join(os.path.dirname(os.path.abspath(__file__)), "props_c[0-9][0-9].py"))):
+    _pid = "C" + os.path.basename(_f)[7:9]
+    _spec = _ilu.spec_from_file_location("props_" + _pid, _f)
+    _m = _ilu.module_from_spec(_spec)
+    _m.COMMON_TB = COMMON_TB
+    _m.nontrivial_default = nontrivial_default
+    _spec.loader.exec_module(_m)
+    PROPS[_pid] = _m.ENTRY
+    if getattr(_m, "CLAIM", None):
+        PROPS[_pid]["claim"] = _m.CLAIM
